@@ -271,7 +271,7 @@ fn process(acc: &mut Acc, cfg: &Cfg, gapless: bool, base: &str) {
     // universe of generated names
     let mut uni: BTreeMap<String, usize> = BTreeMap::new();
     for (i, it) in items.iter().enumerate() {
-        if it.kind == "impl" || it.kind == "inherent" {
+        if it.kind == "impl" || it.kind == "inherent" || it.kind == "use" {
             continue;
         }
         if uni.insert(it.name.clone(), i).is_some() && acc.dup.len() < 40 {
@@ -309,6 +309,13 @@ fn process(acc: &mut Acc, cfg: &Cfg, gapless: bool, base: &str) {
     for (i, it) in items.iter().enumerate() {
         if it.kind == "inherent" {
             acc.class("(inherent impl header)", "own", &it.sig, cfg, true);
+            continue;
+        }
+        if it.kind == "use" {
+            // a module-level import puts a name into the USER's module: reported like an unrequested public item
+            if acc.unrequested_public.len() < 40 {
+                acc.unrequested_public.push((cfg.clone(), format!("module-level `{}`", it.sig)));
+            }
             continue;
         }
         let own = format!("{} | {} | {} | {}", it.kind, it.vis, it.sig, it.body);
